@@ -59,6 +59,9 @@ structure Params where
   blocked : List String := []         -- bank blocked recipients (module accounts, blacklist)
   marginPools : List String := []     -- x/margin params.Pools (margin-enabled pools)
   removalThreshold : Dec := ⟨0⟩       -- x/margin params.RemovalQueueThreshold
+  lpActive : Bool := false            -- LiquidityProtectionParams.IsActive
+  lpMax : Nat := 0                    -- MaxRowanLiquidityThreshold
+  lpAsset : String := "cusdc"         -- MaxRowanLiquidityThresholdAsset
   deriving Repr, Inhabited
 
 def clpAcct : String := "clp"
@@ -72,6 +75,7 @@ structure St where
   accu : Nat := 0                     -- block-distribution accumulator (store key 0x0b)
   height : Int := 1
   params : Params := {}
+  lpCur : Nat := 0                    -- LiquidityProtectionRateParams.CurrentRowanLiquidityThreshold
   deriving Repr, Inhabited
 
 def poolKey (sym : String) : String := sym ++ "_rowan"
